@@ -10,6 +10,7 @@
 -/
 import Props.Defs
 import Proofs.Vector
+import Coma.Corr
 namespace Coma.Props
 open Coma Coma.Spec
 
@@ -63,6 +64,22 @@ theorem C16_top_n {α} (count : Nat) (score : α → Int) (peaks : List α) :
     ∃ rest, (selectPeaks count score peaks ++ rest).Perm peaks ∧
       ∀ x ∈ selectPeaks count score peaks, ∀ y ∈ rest, score y ≤ score x :=
   Coma.Proofs.selectPeaks_spec count score peaks
+
+/-- per correlation: when a correlation has more peaks than peaksCount exactly the peaksCount
+    highest are kept (`createPeaks`, src/correlation/optical_map.py:141-155), each converted to the
+    centre of its bin -/
+theorem C16_top_n_per_correlation (count res start : Int) (peaks : List (Int × Int)) (_hc : 0 ≤ count)
+    (hlt : count < peaks.length) :
+    ∃ kept rest : List (Int × Int), createPeaks count res start peaks = kept.map (fun p => (toBp p.1 res start, p.2)) ∧
+      kept.length = count.toNat ∧ (kept ++ rest).Perm peaks ∧ ∀ x ∈ kept, ∀ y ∈ rest, y.2 ≤ x.2 := by
+  obtain ⟨hlen, _, rest, hperm, hle⟩ := C16_top_n count.toNat (fun (p : Int × Int) => p.2) peaks
+  refine ⟨selectPeaks count.toNat (fun (p : Int × Int) => p.2) peaks, rest, ?_, ?_, hperm, hle⟩
+  · simp [createPeaks, hlt]
+  · rw [hlen]; omega
+
+theorem C16_all_peaks_when_few (count res start : Int) (peaks : List (Int × Int)) (h : ¬ count < peaks.length) :
+    createPeaks count res start peaks = peaks.map (fun p => (toBp p.1 res start, p.2)) := by
+  simp [createPeaks, h]
 
 /-- non-vacuity -/
 example : (vectorise [150, 420, 430, 999] 100 100 none).toOption = some [1, 0, 0, 1, 0, 0, 0, 0, 1] := by decide +kernel
